@@ -45,6 +45,7 @@ func (s *Skiplist) NewIterator2(cmp CompareFn,
 
 // SeekFirst moves cursor to the start
 func (it *Iterator) SeekFirst() {
+	it.deleted = false
 	it.prev = it.s.head
 	it.curr, _ = it.s.head.getNext(0)
 	it.valid = true
@@ -67,6 +68,7 @@ func (it *Iterator) SeekWithCmp(itm unsafe.Pointer, cmp CompareFn, eqCmp Compare
 
 // Seek moves iterator to a provided item
 func (it *Iterator) Seek(itm unsafe.Pointer) bool {
+	it.deleted = false
 	it.valid = true
 	found := it.s.findPath(itm, it.cmp, it.buf, &it.s.Stats) != nil
 	it.prev = it.buf.preds[0]
@@ -127,6 +129,9 @@ retry:
 	it.count++
 	if it.count%it.smrInterval == 0 {
 		it.Refresh()
+		// The position was just reached by this call: the caller has not
+		// seen it yet, so there is nothing to compensate for
+		it.deleted = false
 	}
 }
 
@@ -146,7 +151,12 @@ func (it *Iterator) Refresh() {
 		currBs := it.bs
 		itm := it.Get()
 		it.bs = it.s.barrier.Acquire()
-		it.Seek(itm)
+		if !it.Seek(itm) {
+			// The current item was deleted meanwhile and the iterator stands
+			// on its successor already. The caller has consumed the deleted
+			// item only: the following Next() must not step over the successor.
+			it.deleted = true
+		}
 		it.s.barrier.Release(currBs)
 	}
 }
